@@ -266,7 +266,7 @@ func sliceLeaves(env *core.Env, v ssa.Value, depth int) map[string]bool {
 		case *ssa.Const:
 			out["const:"+core.Key(x)] = true
 		case *ssa.Parameter:
-			out["param:"+x.Name()] = true
+			out["param:"+core.ParamName(x)] = true
 		case *ssa.FreeVar:
 			out["freevar:"+x.Name()] = true
 		case *ssa.Global:
